@@ -92,7 +92,11 @@ func worldScenario(c *Ctx, run string, rng *mrand.Rand, genesisOffset time.Durat
 		w := world.NewWorld(c.Tr, 1, time.Now().Add(genesisOffset))
 		defer w.Close()
 		daBT := 300 * time.Millisecond
-		seq := w.NewNode(world.NodeOpts{Name: "seq", Aggregator: true, Lazy: lazy, BlockTime: 100 * time.Millisecond, LazyInterval: 400 * time.Millisecond, DABlockTime: daBT, MempoolTTL: 2})
+		ttl := uint64(2)
+		if slowDA {
+			ttl = 20 // a rejected submission backs off for DABlockTime x MempoolTTL = 6s: longer than "promptly"
+		}
+		seq := w.NewNode(world.NodeOpts{Name: "seq", Aggregator: true, Lazy: lazy, BlockTime: 100 * time.Millisecond, LazyInterval: 400 * time.Millisecond, DABlockTime: daBT, MempoolTTL: ttl})
 		seq.KV.Quiet = false
 		full := w.NewNode(world.NodeOpts{Name: "full", Aggregator: false, DAStart: 1, DABlockTime: daBT, BlockTime: 100 * time.Millisecond})
 		full.KV.Quiet = true
